@@ -255,6 +255,9 @@ func MapReset() {
 }
 
 //go:norace
+func regCount() int { return regN }
+
+//go:norace
 func regID(k any) int {
 	for i := 0; i < regN; i++ {
 		if regKeys[i] == k {
@@ -267,6 +270,20 @@ func regID(k any) int {
 		return regN - 1
 	}
 	return regCap
+}
+
+// RegKey gives k its place in the first-seen order used to iterate maps whose
+// keys have no natural order (pointers, interfaces). The instrumenter inserts
+// a call before every assignment to such a map, so that the order is the
+// order of insertion - decided by the single running task - and never Go's
+// random iteration order.
+func RegKey[K comparable](k K) {
+	if Active() == nil {
+		return
+	}
+	regLock()
+	regID(any(k))
+	regUnlock()
 }
 
 // MapKeys returns the keys of m in a canonical order (sorted for ordered key
@@ -376,10 +393,17 @@ func canonical[K comparable](keys []K) {
 	// Pointers, interfaces, structs: first-seen registry order.
 	ids := make([]int, len(keys))
 	regLock()
+	before := regCount()
 	for i, k := range keys {
 		ids[i] = regID(any(k))
 	}
+	fresh := regCount() - before
 	regUnlock()
+	if fresh >= 2 {
+		// keys that were never registered at insertion: their relative order
+		// comes from Go's map iteration and is not reproducible
+		Probe("machinery:unordered-map-keys")
+	}
 	sort.Sort(&byID[K]{ids, keys})
 }
 
